@@ -305,6 +305,10 @@ def end_to_end(ctx):
         ms.run_all()
         col.count()
         am.mpe(sel_freq=[f0], DF=2 * fs / nxseg)
+        if am.result.Fn is None or am.result.Phi is None or np.size(am.result.Fn) != 1 or np.shape(am.result.Phi) != (4, 1):
+            col.violation("FDD_MS/e2e/result_shape", f"FDD_MS: one frequency selected on four sensors, Fn {np.shape(am.result.Fn)}, "
+                          f"Phi {np.shape(am.result.Phi)}", rep)
+            continue
         ph = np.asarray(am.result.Phi)[:, 0]
         full = np.array([amp[0], amp[1], amp[2], amp[2]])
         k = int(round(float(am.result.Fn[0]) / (fs / nxseg)))
